@@ -242,6 +242,65 @@ def confidence(res, prog, c):
                     res.violation('C19.4', 'C19.4|push|%s' % sv[:60], conf, t.get('line'), 'value pushed into the confidence list is not a confidence constant: %s' % sv[:100])
 
 
+def permission_table(res, prog, c):
+    """C19.5: "a region that permits the access" is a finite table: Read -> readable, Write -> writable, Execute ->
+    executable, Undetermined -> anything (possibly-allowed) / nothing (allowed); and the access kind comes from the crash
+    reason: Windows access violation READ / WRITE / EXEC, everything else undetermined."""
+    res.rule('C19.5', 0, floor=13, note='MemoryOperation permission table and its derivation from the crash reason, arm by arm')
+    adt = c.adts.get('minidump_processor::processor::memory_operation::MemoryOperation')
+    names = {v['discr']: v['name'] for v in (adt or {}).get('variants', [])}
+    WANT = {
+        'is_possibly_allowed_for': {'Undetermined': '1', 'Read': '(minidump::UnifiedMemoryInfo::is_readable memory_info)', 'Write': '(minidump::UnifiedMemoryInfo::is_writable memory_info)', 'Execute': '(minidump::UnifiedMemoryInfo::is_executable memory_info)'},
+        'is_allowed_for': {'Undetermined': '0', 'Read': '(minidump::UnifiedMemoryInfo::is_readable memory_info)', 'Write': '(minidump::UnifiedMemoryInfo::is_writable memory_info)', 'Execute': '(minidump::UnifiedMemoryInfo::is_executable memory_info)'},
+    }
+    for meth, want in WANT.items():
+        f = need_fn(res, c, 'minidump_processor::processor::memory_operation::MemoryOperation::' + meth, 'C19.5')
+        if f is None:
+            continue
+        ex = PathExplorer(f, keep=lambda cnd: True)
+        ex.run()
+        got = {}
+        for (b, i, t) in ret_assigns(f):
+            for facts, env in ex.states.get(b, ()):
+                d = [v for cc, v in facts if show(cc) == '(discr self)' and not isinstance(v, (bool, tuple))]
+                extra = [show(cc) for cc, v in facts if show(cc) != '(discr self)']
+                key = names.get(d[0], '?') if len(d) == 1 else '?'
+                got.setdefault(key, set()).add(show(f.expand(t)) + (' under ' + ';'.join(extra) if extra else ''))
+        for k, w in want.items():
+            res.rule('C19.5', 1)
+            if got.get(k) != {w}:
+                res.violation('C19.5', 'C19.5|%s|%s' % (meth, k), f, f.line, '%s for %s is %s; documented: %s' % (meth, k, sorted(got.get(k, [])), w))
+        for k in set(got) - set(want):
+            res.violation('C19.5', 'C19.5|%s|extra|%s' % (meth, k), f, f.line, '%s has an unexpected arm %s: %s' % (meth, k, sorted(got[k])))
+    f = need_fn(res, c, 'minidump_processor::processor::memory_operation::MemoryOperation::from_crash_reason', 'C19.5')
+    if f is not None:
+        cr = prog.crate('minidump').adts.get('minidump::minidump::CrashReason') or {}
+        av = [v['discr'] for v in cr.get('variants', []) if v['name'] == 'WindowsAccessViolation']
+        ex = PathExplorer(f, keep=lambda cnd: True)
+        ex.run()
+        table = {}
+        for (b, i, t) in ret_assigns(f):
+            for facts, env in ex.states.get(b, ()):
+                fs = dict((show(cc), v) for cc, v in facts)
+                r = fs.get('(discr reason)')
+                k = fs.get('(discr (WindowsAccessViolation.0 reason))')
+                val = show(f.expand(t)).split('::')[-1].rstrip(')')
+                table[(r if not isinstance(r, tuple) else 'other', k if not isinstance(k, tuple) else 'other')] = val
+        want = {(av[0] if av else None, 0): 'Read', (av[0] if av else None, 1): 'Write', (av[0] if av else None, 8): 'Execute'}
+        for k, w in want.items():
+            res.rule('C19.5', 1)
+            if table.get(k) != w:
+                res.violation('C19.5', 'C19.5|from_crash_reason|%s' % w, f, f.line, 'access kind for WindowsAccessViolation(%s) is %s; documented: %s' % (k[1], table.get(k), w))
+        res.rule('C19.5', 1)
+        others = {k: v for k, v in table.items() if k not in want}
+        if not others or any(v not in ('default',) for v in others.values()):
+            res.violation('C19.5', 'C19.5|from_crash_reason|default', f, f.line, 'crash reasons other than a Windows READ/WRITE/EXEC access violation do not map to the undetermined access: %s' % others)
+        d = c.fn('<processor::memory_operation::MemoryOperation as std::default::Default>::default')
+        res.rule('C19.5', 1)
+        if d is None or [show(d.expand(t)) for (_, _, t) in ret_assigns(d)] != ['(adt minidump_processor::processor::memory_operation::MemoryOperation::Undetermined)']:
+            res.violation('C19.5', 'C19.5|default', d or f, (d or f).line, 'MemoryOperation::default() is not Undetermined')
+
+
 def run(tier, t0):
     res = harness.Result(PID)
     prog = program()
@@ -251,11 +310,12 @@ def run(tier, t0):
         mapped_or_null(res, prog, c, f)
         gates(res, prog, c, f)
     confidence(res, prog, c)
+    permission_table(res, prog, c)
     res.assumptions += [
         'memory_info_at_address returns an entry whose range contains the address (C08 behaviour, not decided here)',
         'f32 arithmetic: products and 1 - x of values in [0,1] stay in [0,1] (monotone rounding)',
     ]
-    return harness.finish(res, tier, t0, distinct=4, explanation=(
+    return harness.finish(res, tier, t0, distinct=5, explanation=(
         'Value-shape dataflow and gating dominance over the MIR of bitflip::try_bit_flips, BitRange::range, check_for_bitflips and the confidence code: every pushed candidate is address ^ (1 << i) '
         'with i the induction variable of the loop over one of the constant ranges 0..64 / 0..48 / 48..64, each push is guarded by `== 0` or mapped-and-permitted, the attempt is gated on 64-bit non-ARM64 and '
         'on the adjusted-address kind, the function returns before the loop when the examined address is accessible, and every confidence is built from constants in [0,1] by products and 1 - prod(1 - v).'))
